@@ -145,6 +145,27 @@ func (p *MetadataPersister) MoveHeader(ctx context.Context, oldName string, newN
 	newName = p.getSanitizedPath(ctx, newName)
 	oldName = p.getSanitizedPath(ctx, oldName)
 
+	// The new name may still be taken by a row that the record being applied supersedes: the tombstone of an entry
+	// that has been removed before, or the row that a previous pass over the same tape has already renamed.
+	// Make room for it, otherwise renaming the primary key collides with that row
+	if newName != oldName {
+		if _, err := queries.Raw(
+			fmt.Sprintf(
+				`delete from %v where %v = ? and %v in (select %v from %v where %v = ?);`,
+				models.TableNames.Headers,
+				models.HeaderColumns.Name,
+				models.HeaderColumns.Linkname,
+				models.HeaderColumns.Linkname,
+				models.TableNames.Headers,
+				models.HeaderColumns.Name,
+			),
+			newName,
+			oldName,
+		).ExecContext(ctx, p.sqlite.DB); err != nil {
+			return err
+		}
+	}
+
 	// We can't do this with `dbhdr.Update` because we are renaming the primary key
 	n, err := queries.Raw(
 		fmt.Sprintf(
